@@ -482,8 +482,14 @@ def _s3(program, res):
             if opt == "annotate":
                 # everything assigned in the body must be comment text
                 assigns = [s for b in test_owner.body for s in ast.walk(b) if isinstance(s, ast.Assign)]
-                bad = [s for s in assigns if "--" not in unparse(s.value) and "_clean_annotation" not in unparse(s.value)
-                       and not unparse(s.value).startswith("re.sub")]
+                def _is_comment(v):
+                    t = unparse(v)
+                    if "--" in t or "_clean_annotation" in t or t.startswith("re.sub"):
+                        return True
+                    # a block comment: some constant opens it and a later constant closes it (what goes between is C14's business)
+                    consts = [c.value for c in ast.walk(v) if isinstance(c, ast.Constant) and isinstance(c.value, str)]
+                    return any("/*" in c for c in consts) and any("*/" in c for c in consts)
+                bad = [s for s in assigns if not _is_comment(s.value)]
                 if bad:
                     res.fail_at("C04-S3", f, "annotate-changes-sql", f"under `annotate`, `{unparse(bad[0])[:70]}` is not comment text", bad[0])
                 else:
